@@ -12,6 +12,7 @@ package logic
 // 64-bit / up-to-528-bit operands.
 
 import (
+	"bytes"
 	"encoding/binary"
 	"errors"
 	"math"
@@ -69,16 +70,18 @@ func (tr *vC32Tracer) AfterOpcode(cx *EvalContext, err error) {
 }
 
 type vC32Env struct {
-	t       *testing.T
-	sig     [LogicVersion + 1]*EvalParams
-	app     [LogicVersion + 1]*EvalParams
-	tr      *vC32Tracer
-	out     *vOut
-	perOp   map[string]int
-	errs    map[string]int
-	evals   int
-	appRuns int
-	oldVer  int
+	t           *testing.T
+	sig         [LogicVersion + 1]*EvalParams
+	app         [LogicVersion + 1]*EvalParams
+	tr          *vC32Tracer
+	out         *vOut
+	perOp       map[string]int
+	errs        map[string]int
+	evals       int
+	appRuns     int
+	aliasBroken int
+	prodRuns    int
+	oldVer      int
 }
 
 func vC32NewEnv(t *testing.T, out *vOut) *vC32Env {
@@ -180,11 +183,20 @@ func (e *vC32Env) program(v uint64, op vC32Op, args []interface{}) ([]byte, int)
 // run one case through the real evaluator and emit the case line
 func (e *vC32Env) run(op vC32Op, v uint64, app bool, args ...interface{}) {
 	prog, oppc := e.program(v, op, args)
+	e.exec(op, v, app, prog, oppc, args, "", -1)
+}
+
+// exec evaluates prog (whose opcode under test sits at oppc) and emits the case line.  form is
+// appended to the mode symbol (how the operands were produced; ignored by the model).  alias >= 0:
+// an extra copy of operand #alias (sharing its byte slice) lies below the operands; it must come
+// out unchanged and is then dropped from the observation -- if the opcode modified it in place,
+// it is left in, and the observation no longer has the specified shape.
+func (e *vC32Env) exec(op vC32Op, v uint64, app bool, prog []byte, oppc int, args []interface{}, form string, alias int) {
 	e.tr.steps, e.tr.err, e.tr.pc, e.tr.stack = 0, nil, -1, e.tr.stack[:0]
 	var err error
-	mode := vSym("sig")
+	mode := "sig"
 	if app {
-		mode = vSym("app")
+		mode = "app"
 		ep := e.appParams(v)
 		ep.reset()
 		ep.Trace = nil
@@ -202,13 +214,28 @@ func (e *vC32Env) run(op vC32Op, v uint64, app bool, args ...interface{}) {
 	case errors.As(err, &pe):
 		obs = vL(vSym("panic"))
 	case e.tr.pc != oppc:
-		e.t.Fatalf("C32 harness: %s v%d args %v: evaluation stopped at pc %d before the opcode at %d: %v", op.mnem, v, args, e.tr.pc, oppc, err)
+		e.t.Fatalf("C32 harness: %s v%d args %v form %q: evaluation stopped at pc %d before the opcode at %d: %v", op.mnem, v, args, form, e.tr.pc, oppc, err)
 	case e.tr.err != nil:
 		obs = vL(vSym("err"))
 		e.errs[op.sym]++
 	default:
 		obs = vL(vSym("ok"))
-		for _, sv := range e.tr.stack {
+		st := e.tr.stack
+		if alias >= 0 && len(st) > 0 {
+			intact := false
+			switch x := args[alias].(type) {
+			case uint64:
+				intact = st[0].Bytes == nil && st[0].Uint == x
+			case []byte:
+				intact = st[0].Bytes != nil && bytes.Equal(st[0].Bytes, x)
+			}
+			if intact {
+				st = st[1:]
+			} else {
+				e.aliasBroken++
+			}
+		}
+		for _, sv := range st {
 			if sv.Bytes != nil {
 				obs = append(obs, sv.Bytes)
 			} else {
@@ -216,7 +243,7 @@ func (e *vC32Env) run(op vC32Op, v uint64, app bool, args ...interface{}) {
 			}
 		}
 	}
-	e.out.Case(vSym(op.sym), v, mode, vL(args...), obs)
+	e.out.Case(vSym(op.sym), v, vSym(mode+form), vL(args...), obs)
 	e.perOp[op.sym]++
 	e.evals++
 	if v != LogicVersion {
@@ -750,6 +777,9 @@ func TestVerifC32(t *testing.T) {
 		e.auto(rnd, o, b, uint64(4096-ex.n+1))
 	}
 
+	// ---- the same opcodes on operands built by other opcodes (stale Uint under Bytes, shared slices, shuffles)
+	vC32Producers(e, rnd, ops, thorough)
+
 	// ---- extra random volume (thorough tier): every opcode on random well-typed operands
 	extra := vEnvInt("VERIF_C32_EXTRA", 0)
 	for i := 0; i < extra; i++ {
@@ -780,7 +810,7 @@ func TestVerifC32(t *testing.T) {
 	for k, v := range e.errs {
 		errs[k] = v
 	}
-	vStats(map[string]interface{}{"evaluations": e.evals, "application_mode": e.appRuns, "older_versions": e.oldVer,
+	vStats(map[string]interface{}{"evaluations": e.evals, "application_mode": e.appRuns, "producer_form_cases": e.prodRuns, "alias_copies_modified": e.aliasBroken, "older_versions": e.oldVer,
 		"per_opcode": perOp, "error_outcomes_per_opcode": errs, "opcodes": len(vC32Ops)})
 	_ = transactions.EvalMaxArgs
 }
